@@ -345,8 +345,8 @@ class KaniBuild:
                 continue
             ty = rt.group(1)
             nd = DIG[(ty, radix)]
-            if nd > 12:
-                continue          # 18/34-digit binary words: left out (cost); stated in the evidence
+            if nd > 12 and os.environ.get("VERIF_TIER_EFFECTIVE") != "thorough":
+                continue          # 18/34-digit binary literals: thorough tier only (cost)
             neg = prefix == "-"
             hname = f"b_pp_{p.nt}_{ {10: 'dec', 16: 'hex', 2: 'bin'}[radix] }{'_neg' if neg else ''}"
             plen = len(prefix)
